@@ -131,12 +131,12 @@ PROPS = {
         ],
     },
     'C16': {
-        'native': ['c05_', 'c06_'],
+        'native': ['c05_', 'c06_', 'c16_'],
         'units': ['script_btc', 'script_custom'],
         'kani_quick': [],
         'kani_thorough': [],
         'trusted': [
-            'OpReturn::on_block (the printing loop: skips empty payloads, one line per OP_RETURN output in tx/output order) uses `continue` inside `for` (rejected by this Verus) and println! -- UNCHECKED; what is decided is the payload value that loop prints',
+            'OpReturn::on_block (the printing loop: skips empty payloads, one line per OP_RETURN output in tx/output order) uses `continue` inside `for` (rejected by this Verus) and println! -- not under contract; lane N (c16_opreturn_printed_lines) replays it on a bounded payload catalogue with stdout captured; lane V decides the payload value that loop prints',
             'String::from_utf8 == (utf8_valid, utf8_decode), String::from_utf8_lossy == lossy_utf8: uninterpreted std functions',
             'rust-bitcoin Instructions iterator follows Bitcoin push rules (shim contract, trusted)',
         ],
